@@ -58,6 +58,11 @@ ERRNOS = {
     "waitpid": ["EINTR"], "poll": ["EINTR"], "nanosleep": ["EINTR"], "fsync": ["EINTR"], "fdatasync": ["EINTR"],
     "ftruncate": ["EINTR"], "close": ["EINTR"], "fork": ["EAGAIN", "ENOMEM"], "statx": ["ENOMEM"],
     "sendfile": ["EINTR", "EAGAIN"], "bind": ["ENOMEM"], "listen": [],
+    # libc-level entry points of the file API (failed as a whole; uv__fs_work retries all of them on EINTR)
+    "opendir": ["EINTR", "EMFILE", "ENFILE", "ENOMEM"], "scandir": ["EINTR", "EMFILE", "ENFILE", "ENOMEM"],
+    "mkstemp": ["EINTR", "EMFILE", "ENFILE", "ENOMEM"], "readlink": ["EINTR", "ENOMEM"], "realpath": ["EINTR", "ENOMEM"],
+    "mkdtemp": ["EINTR", "ENOMEM"], "rename": ["EINTR", "ENOMEM"], "unlink": ["EINTR", "ENOMEM"], "mkdir": ["EINTR", "ENOMEM"],
+    "rmdir": ["EINTR", "ENOMEM"], "symlink": ["EINTR", "ENOMEM"], "access": ["EINTR", "ENOMEM"],
 }
 
 # abort() is permitted only in these functions (DESIGN §3 C16 / property text: growing the watcher table,
@@ -437,7 +442,7 @@ def run(ctx):
                     "regex retry-shape extractor in checks/c16.py"]
     ctx.assumptions += ["Linux/epoll build, io_uring disabled by the harness (io_uring_setup -> ENOSYS)",
                         "UV_THREADPOOL_SIZE=1 so occurrence indices are deterministic",
-                        "faults inside libc-internal calls (getaddrinfo, scandir, fopen, getpwuid_r) are out of reach",
+                        "libc-level file calls (opendir, scandir, readlink, realpath, mkdtemp, mkstemp, rename, unlink, mkdir, rmdir, symlink, access) are failed as a whole; faults inside getaddrinfo, fopen, getpwuid_r, getifaddrs remain out of reach",
                         "the forked child before exec runs without fault injection"]
     lost = check_census(ctx)          # regenerates Generated/RetryCensus.lean first: Props.C16 proves a theorem about it
     lean_ok = ctx.require_lean(["UvModel.Props.C16"])
@@ -519,6 +524,50 @@ def run(ctx):
             suspects.append((r, v))
         elif len(r.spec.split()) > 1:
             ctx.sample({"run": r.spec, "fired": r.fired, "outcome": r.T[-1:] or r.A[-1:]})
+    # ---- second wave, derived from what the first wave did:
+    #  (a) faults inside recovery code: a single fault makes libuv execute calls the fault-free run never makes
+    #      (load shedding, undo paths, fallbacks); each such extra occurrence is failed as well, so that the recovery
+    #      action itself fails and the scenario then runs on to a further episode / the loop close;
+    #  (b) every hard single fault once more under an allocator whose entry points clobber errno (`clobber`): the
+    #      reported code must still be the mapping of the injected errno;  plus the fault-free run under `clobber`.
+    wave2 = []
+    for r in results:
+        parts = r.spec.split()
+        scen, faults = parts[0], parts[1:]
+        if len(faults) != 1 or scen not in bases or not r.counts or r.abort is not None or sum(r.fired.values()) == 0:
+            continue
+        if faults[0].endswith(":EINTR"):
+            continue
+        b = bases[scen]
+        for ck, n in sorted(r.counts.items()):
+            n0 = b.counts.get(ck, 0)
+            if ck == "alloc":
+                wave2 += [f"{scen} {faults[0]} alloc:{i}" for i in range(n0 + 1, n + 1)]
+            else:
+                for i in range(n0 + 1, min(n, n0 + 6) + 1):
+                    wave2 += [f"{scen} {faults[0]} sys:{ck}:{i}:{e}" for e in errnos_for(ck) if e != "EINTR" or ck.startswith("close")]
+        wave2.append(f"{scen} {faults[0]} clobber")
+    wave2 += [f"{s} clobber" for s in SCENARIOS]
+    wave2 = [w for w in dict.fromkeys(wave2)]
+    ctx.notes["second_order"] = {"recovery_fault_runs": sum(1 for w in wave2 if "clobber" not in w),
+                                 "clobber_runs": sum(1 for w in wave2 if "clobber" in w)}
+    cap = ctx.scale(6000, 10 ** 9)
+    if len(wave2) > cap:
+        keep = [w for w in wave2 if "clobber" in w]
+        rest = [w for w in wave2 if "clobber" not in w]
+        while len(keep) < cap and rest:
+            keep.append(rest.pop(ctx.rng.below(len(rest))))
+        wave2 = keep
+    ctx.log(f"{len(wave2)} second-wave runs (faults inside recovery paths, errno-clobbering allocator)")
+    for r in run_batch(ctx, exe, wave2):
+        ctx.count(); stats["runs"] += 1
+        scen = r.spec.split()[0]
+        v = judge(ctx, r, bases.get(scen), sym, stats)
+        if sum(r.fired.values()) or v:
+            ctx.validated()
+            ctx.nontrivial((scen, tuple(sorted(k for k, n in r.fired.items() if n)), "clobber" in r.spec, tuple(r.A[-3:])))
+        if v:
+            suspects.append((r, v))
     # ---- shrink: a multi-fault failure is re-run with each single fault; report the smallest reproducer
     reported = set()
     for r, v in suspects:
@@ -529,9 +578,13 @@ def run(ctx):
             rep = faults
             if len(faults) > 1:
                 for f in faults:
+                    if f == "clobber":
+                        continue
+                    if "clobber" in faults:
+                        f = f + " clobber"
                     rr = run_batch(ctx, exe, [f"{scen} {f}"])[0]
                     if any(s2 == sig for s2, _ in judge(ctx, rr, bases.get(scen), sym, stats)):
-                        rep = [f]; break
+                        rep = f.split(); break
             reported.add(sig)
             ctx.violation(sig, f"scenario {scen} faults {' '.join(rep)}: {what}  "
                                f"[reproduce: python3 tools/check.py C16 --replay <this file>]",
